@@ -237,6 +237,8 @@ def check_property(pid, tier, seed):
                  for k in known if k.get("status") == "known"}
     os.makedirs(os.path.join(VERIF, "replays"), exist_ok=True)
     os.makedirs(os.path.join(VERIF, "evidence"), exist_ok=True)
+    for old in glob.glob(os.path.join(VERIF, "replays", pid + ".*.json")):
+        os.remove(old)
     tmp = tempfile.mkdtemp(prefix="vh-check-")
     obl_reports = []
     violations = []     # confirmed, not known
@@ -345,6 +347,9 @@ def check_property(pid, tier, seed):
                     known_hit[idn] = known_ids[idn]
                     continue
                 todo.append(v)
+            if len(todo) > 12:
+                rep["violations_not_replayed"] = len(todo) - 12
+                todo = todo[:12]
             # native runs: violation vectors + sampled path witnesses (translator validation)
             smp = [s for s in res.get("samples", [])]
             vectors = [v["vector"] for v in todo] + [s["vector"] for s in smp]
@@ -390,11 +395,18 @@ def check_property(pid, tier, seed):
                 samples_out.append({"obligation": ob["id"], "bound": used, "path_end": s["end"], "input_vector": s["vector"],
                                     "input_bytes": s.get("text", ""), "tags": s.get("tags") or [],
                                     "native_observation": (nat[len(todo) + j] or "")[:400]})
-            if res["incomplete"]:
+            incomplete = res["incomplete"]
+            if incomplete and res.get("incomplete_reason", "").startswith("paths cut") and ob.get("allow_cut"):
+                # cut paths whose reason is declared outside the bound of this obligation
+                bad = [k for k in cut if not any(a in k for a in ob["allow_cut"])]
+                if not bad:
+                    incomplete = False
+                    rep["paths_cut_outside_bound"] = sum(cut.values())
+            if incomplete:
                 inconclusive.append("%s: exploration incomplete (%s)" % (ob["id"], res.get("incomplete_reason", "")))
             rep["violations_new"] = confirmed_here
             rep["verdict"] = ("violated" if confirmed_here else
-                              ("holds(bound)" if not res["incomplete"] and not missing_cover else "inconclusive"))
+                              ("holds(bound)" if not incomplete and not missing_cover else "inconclusive"))
             obl_reports.append(rep)
     finally:
         shutil.rmtree(tmp, ignore_errors=True)
